@@ -269,14 +269,19 @@ theorem winv_wakeWaiters {w : World} (h : WInv w) (z : Pid) (sig : Int) : WInv (
 
 /-! ### the end of a process -/
 
+theorem WInv.of_views' {w w' : World} (h : WInv w)
+    (hpa : ∀ z, w'.pa z = w.pa z) (hwt : ∀ q, (w'.proc q).waiters = (w.proc q).waiters)
+    (hbl : ∀ z, w.pa z ≠ [] → (w'.proc z).blocked = (w.proc z).blocked) (hev : WEv w w') : WInv w' :=
+  h.of_views hpa hwt hbl hev.1 hev.2
+
 /-- establish `WInv w'` for a world `w'` that differs from `w` by library steps that neither touch the registrations
     nor wake process waiters; `hp : w.pa p = []` for the executing process `p` -/
 syntax "winv_views " ident ident : tactic
 macro_rules
   | `(tactic| winv_views $h $hp) =>
     `(tactic| (
-        have hev : WEv _ _ := by ec_peel (wev_closed _) allButProc_notProc (WInv.wev $h) 30
-        refine WInv.of_views $h ?_ ?_ ?_ hev.1 hev.2
+        refine WInv.of_views' $h ?_ ?_ ?_ ?hev
+        case hev => ec_peel2 (wev_closed _) allButProc_notProc (WInv.wev $h) 12
         · intro z; simp
         · intro q; simp
         · intro z hz
@@ -612,4 +617,196 @@ theorem winv_resume_waitProc {w w0 : World} (h : WInv w) (p q : Pid) (hb : (w.pr
             simp at hit; exact ⟨hit.2, hit.1⟩
       · rw [cancelKindFor_pa, hpa1]; simp
 
+/-! ### every command -/
+
+syntax "winv_cmd " ident ident : tactic
+macro_rules
+  | `(tactic| winv_cmd $h $hp) =>
+    `(tactic| first
+        | with_reducible exact $h
+        | (split <;> winv_cmd $h $hp)
+        | (winv_views $h $hp; done))
+
+set_option maxHeartbeats 1000000 in
+theorem winv_execCmd_frame {w : World} (h : WInv w) (p : Pid) (hpa : w.pa p = []) (c : Cmd)
+    (h1 : ∀ z v, c ≠ .stop z v) (h2 : ∀ v, c ≠ .exit v) (h3 : ∀ q, c ≠ .waitProc q) (h4 : ∀ r, c ≠ .preempt r)
+    (h5 : ∀ q v, c ≠ .prioSet q v) :
+    WInv (execCmd w p c).1 := by
+  cases c
+  case stop z v => exact absurd rfl (h1 z v)
+  case exit v => exact absurd rfl (h2 v)
+  case waitProc q => exact absurd rfl (h3 q)
+  case preempt r => exact absurd rfl (h4 r)
+  case prioSet q v => exact absurd rfl (h5 q v)
+  all_goals simp only [execCmd]
+  all_goals winv_cmd h hpa
+
+theorem finishProc_pa (w : World) (z : Pid) (val : Int) (stopped : Bool) (p : Pid) :
+    (finishProc w z val stopped).pa p = if p = z then [] else w.pa p := by
+  rw [finishProc_eq]
+  have e : ∀ W : World, (W.modProc z fun x => { x with status := .finished, exitVal := val, blocked := none }).pa p
+      = W.pa p := fun W => by simp
+  rw [e, wakeWaiters_pa]
+  unfold finishMid; split
+  · rw [dropResources_pa, cancelAwaiteds_pa]
+  · rw [cancelAwaiteds_pa, dropResources_pa]
+
+theorem reprioritize_items {q q' : EvQ} {h : Nat} {v : Int} (hr : reprioritize q h v = .ok q') :
+    q'.pending.map (·.item) = q.pending.map (·.item) := by
+  unfold reprioritize at hr
+  split at hr
+  · cases hr
+  · injection hr with hr; subst hr
+    simp only [List.map_map]
+    apply List.map_congr_left
+    intro e _
+    simp only [Function.comp]
+    split <;> rfl
+
+theorem wev_reprioritize {w0 w : World} (hw : WEv w0 w) {ev' : EvQ} {h : Nat} {v : Int}
+    (hr : reprioritize w.ev h v = .ok ev') : WEv w0 { w with ev := ev' } := by
+  have hi := reprioritize_items hr
+  have hc : ∀ z, np { w with ev := ev' } z = np w z := by
+    intro z
+    unfold np cnt
+    have : ∀ l : List HTag, l.countP (fun e => isAProc z e.item) = (l.map (·.item)).countP (isAProc z) := by
+      intro l; rw [List.countP_map]; rfl
+    rw [this, this]
+    exact congrArg _ hi
+  refine ⟨fun z => by rw [hc]; exact hw.1 z, ?_⟩
+  intro e he ha
+  have : e.item ∈ ev'.pending.map (·.item) := List.mem_map.2 ⟨e, he, rfl⟩
+  rw [hi] at this
+  obtain ⟨e0, he0, hie⟩ := List.mem_map.1 this
+  have := hw.2 e0 he0 (by rw [hie]; exact ha)
+  rw [hie] at this; exact this
+
+theorem prioSet_awaits (w : World) (p q : Pid) (v : Int) (z : Pid) :
+    ((execCmd w p (.prioSet q v)).1.proc z).awaits = (w.proc z).awaits := by
+  simp only [execCmd]
+  split
+  · rfl
+  · dsimp only
+    fold_proc; fold_proc; frame_close
+
+theorem prioSet_waiters (w : World) (p q : Pid) (v : Int) (z : Pid) :
+    ((execCmd w p (.prioSet q v)).1.proc z).waiters = (w.proc z).waiters := by
+  simp only [execCmd]
+  split
+  · rfl
+  · dsimp only
+    fold_proc; fold_proc; frame_close
+
+theorem prioSet_blocked (w : World) (p q : Pid) (v : Int) (z : Pid) :
+    ((execCmd w p (.prioSet q v)).1.proc z).blocked = (w.proc z).blocked := by
+  simp only [execCmd]
+  split
+  · rfl
+  · dsimp only
+    fold_proc; fold_proc; frame_close
+
+theorem winv_prioSet {w : World} (h : WInv w) (p q : Pid) (v : Int) : WInv (execCmd w p (.prioSet q v)).1 := by
+  refine h.of_views' (fun z => pa_congr (prioSet_awaits w p q v) z) (prioSet_waiters w p q v)
+    (fun z _ => prioSet_blocked w p q v z) ?_
+  simp only [execCmd]
+  split
+  · exact h.wev
+  · dsimp only
+    apply foldl_inv (WEv w)
+    · intro w' a hw'
+      ec_peel (wev_closed w) allButProc_notProc hw' 10
+    · apply foldl_inv (WEv w)
+      · intro w' a hw'
+        split
+        · split
+          · rename_i ev' hr; exact wev_reprioritize hw' hr
+          · exact ec_fail (wev_closed w) _ _ hw'
+        · ec_peel (wev_closed w) allButProc_notProc hw' 10
+        · exact hw'
+      · exact (wev_closed w).ev_only h.wev rfl
+
+theorem winv_preempt {w : World} (h : WInv w) (p : Pid) (hpa : w.pa p = []) (r : Nat) :
+    WInv (execCmd w p (.preempt r)).1 ∧ (execCmd w p (.preempt r)).1.pa p = [] := by
+  simp only [execCmd]
+  split
+  · exact ⟨h, hpa⟩
+  · split
+    · exact ⟨h, hpa⟩
+    · split
+      · constructor
+        · winv_views h hpa
+        · simpa using hpa
+      · rename_i victim _
+        split
+        · dsimp only
+          have h1 : WInv (removeHeld w victim (.res r)).1 := by winv_views h hpa
+          have h2 := winv_cancelAwaiteds h1 victim
+          have hpa2 : (cancelAwaiteds (removeHeld w victim (.res r)).1 victim).pa p = [] := by
+            rw [cancelAwaiteds_pa]; split
+            · rfl
+            · simpa using hpa
+          constructor
+          · winv_views h2 hpa2
+          · simpa using hpa2
+        · constructor
+          · winv_views h hpa
+          · simpa using hpa
+
+set_option maxHeartbeats 1000000 in
+theorem execCmd_pa_frame (w : World) (p : Pid) (c : Cmd) (z : Pid)
+    (h1 : ∀ z v, c ≠ .stop z v) (h2 : ∀ v, c ≠ .exit v) (h3 : ∀ q, c ≠ .waitProc q) (h4 : ∀ r, c ≠ .preempt r)
+    (h5 : ∀ q v, c ≠ .prioSet q v) : (execCmd w p c).1.pa z = w.pa z := by
+  cases c
+  case stop z v => exact absurd rfl (h1 z v)
+  case exit v => exact absurd rfl (h2 v)
+  case waitProc q => exact absurd rfl (h3 q)
+  case preempt r => exact absurd rfl (h4 r)
+  case prioSet q v => exact absurd rfl (h5 q v)
+  all_goals simp only [execCmd]
+  all_goals frame_close
+
+/-- **every command keeps the registration invariant**; unless it is a `wait_process` that blocks, the caller still
+    awaits no process end afterwards -/
+theorem winv_execCmd {w : World} (h : WInv w) (p : Pid) (hp : p < w.procs.size) (hpa : w.pa p = []) (c : Cmd) :
+    WInv (execCmd w p c).1 ∧
+      ((execCmd w p c).1.pa p = [] ∨ ∃ q, execCmd w p c = (waitWorld w p q, .blocked)) := by
+  by_cases h1 : ∃ z v, c = .stop z v
+  · obtain ⟨z, v, rfl⟩ := h1
+    simp only [execCmd]
+    split
+    · exact ⟨(winv_finishProc h p v true).1, Or.inl (winv_finishProc h p v true).2⟩
+    · split
+      · refine ⟨(winv_finishProc h z v true).1, Or.inl ?_⟩
+        rw [finishProc_pa]; split
+        · rfl
+        · exact hpa
+      · exact ⟨h, Or.inl hpa⟩
+  by_cases h2 : ∃ v, c = .exit v
+  · obtain ⟨v, rfl⟩ := h2
+    exact ⟨(winv_finishProc h p v false).1, Or.inl (winv_finishProc h p v false).2⟩
+  by_cases h3 : ∃ q, c = .waitProc q
+  · obtain ⟨q, rfl⟩ := h3
+    by_cases hq : q < w.procs.size
+    · by_cases hf : (w.proc q).status = .finished
+      · have : ¬ q ≥ w.procs.size := Nat.not_le.2 hq
+        simp only [execCmd, this, if_false, hf, if_true]
+        exact ⟨h, Or.inl hpa⟩
+      · rw [execCmd_waitProc w p q hq hf]
+        exact ⟨winv_waitProc h p q hp hq hpa, Or.inr ⟨q, rfl⟩⟩
+    · have : q ≥ w.procs.size := Nat.le_of_not_lt hq
+      simp only [execCmd, this, if_true]
+      exact ⟨h, Or.inl hpa⟩
+  by_cases h4 : ∃ r, c = .preempt r
+  · obtain ⟨r, rfl⟩ := h4
+    exact ⟨(winv_preempt h p hpa r).1, Or.inl (winv_preempt h p hpa r).2⟩
+  by_cases h5 : ∃ q v, c = .prioSet q v
+  · obtain ⟨q, v, rfl⟩ := h5
+    exact ⟨winv_prioSet h p q v, Or.inl (by rw [pa_congr (prioSet_awaits w p q v)]; exact hpa)⟩
+  refine ⟨winv_execCmd_frame h p hpa c (fun z v e => h1 ⟨z, v, e⟩) (fun v e => h2 ⟨v, e⟩) (fun q e => h3 ⟨q, e⟩)
+    (fun r e => h4 ⟨r, e⟩) (fun q v e => h5 ⟨q, v, e⟩), Or.inl ?_⟩
+  rw [execCmd_pa_frame w p c p (fun z v e => h1 ⟨z, v, e⟩) (fun v e => h2 ⟨v, e⟩) (fun q e => h3 ⟨q, e⟩)
+    (fun r e => h4 ⟨r, e⟩) (fun q v e => h5 ⟨q, v, e⟩)]
+  exact hpa
+
 end CimbaModel.Sim
+
